@@ -409,7 +409,16 @@ func KeyPair(id, alg string) (priv any, pub any) {
 // Request builds a real *http.Request. GET: form goes into the query; otherwise into an
 // x-www-form-urlencoded body. badForm appends a malformed escape so that ParseForm fails.
 func Request(method, target string, form url.Values, basicUser, basicPass string, hasBasic, badForm bool) *http.Request {
-	enc := form.Encode()
+	// a key written "?name" travels in the URL query even for a request with a body
+	body, query := url.Values{}, url.Values{}
+	for k, v := range form {
+		if strings.HasPrefix(k, "?") {
+			query[k[1:]] = v
+		} else {
+			body[k] = v
+		}
+	}
+	enc := body.Encode()
 	if badForm {
 		if enc != "" {
 			enc += "&"
@@ -419,12 +428,22 @@ func Request(method, target string, form url.Values, basicUser, basicPass string
 	var r *http.Request
 	if method == http.MethodGet || method == http.MethodHead {
 		u := target
+		if q := query.Encode(); q != "" {
+			if enc != "" {
+				enc += "&"
+			}
+			enc += q
+		}
 		if enc != "" {
 			u += "?" + enc
 		}
 		r = httptest.NewRequest(method, u, nil)
 	} else {
-		r = httptest.NewRequest(method, target, strings.NewReader(enc))
+		u := target
+		if q := query.Encode(); q != "" {
+			u += "?" + q
+		}
+		r = httptest.NewRequest(method, u, strings.NewReader(enc))
 		r.Header.Set("Content-Type", "application/x-www-form-urlencoded")
 	}
 	if hasBasic {
